@@ -101,6 +101,31 @@ def detect(names, tier, runs=None):
     return 0
 
 
+def table():
+    """markdown table of all seeded changes: what, trigger, detected by which signatures"""
+    rows = []
+    for name in sorted(os.listdir(SEEDED)):
+        d = os.path.join(SEEDED, name)
+        try:
+            m = json.load(open(os.path.join(d, "meta.json")))
+        except Exception:
+            m = {}
+        try:
+            t = json.load(open(os.path.join(d, "detect.json")))
+        except Exception:
+            t = {}
+        summ = " ".join(str(m.get("summary", "")).split())[:230]
+        need = " ".join(str(m.get("needs", "")).split())[:200]
+        sigs = []
+        for sg in t.get("signatures", []):
+            if sg not in sigs:
+                sigs.append(sg)
+        rows.append("| %s | %s | %s | %s | %s |" % (name, summ.replace("|", "/"), need.replace("|", "/"), t.get("verdict", "not run"), "; ".join(sigs[:3]).replace("|", "/")[:260]))
+    print("| seeded change | what was changed | needs | quick check | first signatures |")
+    print("|---|---|---|---|---|")
+    print("\n".join(rows))
+
+
 if __name__ == "__main__":
     a = sys.argv[1:]
     if a and a[0] == "confirm":
@@ -116,5 +141,7 @@ if __name__ == "__main__":
         if not names:
             names = sorted(os.listdir(SEEDED))
         sys.exit(detect(names, tier, runs))
+    elif a and a[0] == "table":
+        table()
     else:
         print(__doc__)
